@@ -49,3 +49,14 @@ Record setup_entry := {
 (* recognised shape of _register.inner: inner(self, data=None, *args, **kwargs) whose only call of the
    wrapped function is func(self, y, *args, **kwargs) *)
 Inductive in_shape := InDataArgsKwargs | InUnknown.
+
+(* ---- method NAME arguments of the optimizers: every use of the `method` parameter (or of a name derived from
+   it) in a comparison / membership test with string literals, in a getattr, or anywhere else ---- *)
+Inductive muse :=
+| CmpLowered        (* compared expression is a name assigned from method.lower() (or method after method = method.lower()) *)
+| CmpLowerCall      (* compared expression is <name>.lower() itself *)
+| CmpRaw            (* compared expression is the caller's string as given *)
+| GetattrLowered    (* getattr(obj, <lower-cased name>) / hasattr *)
+| GetattrRaw
+| UseOther.         (* any other use of the raw string that is not whitelisted: unknown *)
+Record mcmp := { mc_two_d : bool; mc_func : string; mc_use : muse; mc_lits : list string }.
